@@ -147,7 +147,7 @@ def r10_6(ctx):
                 bad = "input advances by something other than bytes_read: " + x[:160]
         inp_empty = any(v and "matches InputEmpty" in x for x, v in g.items())
         pops = any(".pop_front(" in x for x in t)
-        returns = not any(x.startswith("loop-end(end)") or x.startswith("loop-end(continue)") for x in t)
+        returns = not any(x.startswith("loop-end(end") or x.startswith("loop-end(continue)") for x in t)
         if not inp_empty and not pops:
             bad = "a path that did not exhaust the input leaves it unadvanced"
         if returns and not inp_empty and g.get("φ(p1).is_empty()") is not True:
